@@ -1699,7 +1699,10 @@ RCP<const Basic> det_bareis(const DenseMatrix &A)
 
     unsigned n = A.row_;
 
-    if (n == 1) {
+    if (n == 0) {
+        // the determinant of the empty matrix is the empty product
+        return one;
+    } else if (n == 1) {
         return A.m_[0];
     } else if (n == 2) {
         // If A = [[a, b], [c, d]] then det(A) = ad - bc
@@ -1764,6 +1767,12 @@ void berkowitz(const DenseMatrix &A, std::vector<DenseMatrix> &polys)
 
     unsigned col = A.col_;
     unsigned i, k, l, m;
+
+    if (col == 0) {
+        // the characteristic polynomial of the empty matrix is 1
+        polys.push_back(DenseMatrix(1, 1, {one}));
+        return;
+    }
 
     std::vector<DenseMatrix> items;
     std::vector<DenseMatrix> transforms;
@@ -1834,6 +1843,9 @@ void berkowitz(const DenseMatrix &A, std::vector<DenseMatrix> &polys)
 RCP<const Basic> det_berkowitz(const DenseMatrix &A)
 {
     std::vector<DenseMatrix> polys;
+
+    if (A.nrows() == 0)
+        return one;
 
     berkowitz(A, polys);
     DenseMatrix poly = polys[polys.size() - 1];
